@@ -8,6 +8,15 @@ CLAIMED = {
  "C02": ("Bounded symbolic history (vote attempts with symbolic kind/round/index, context changes, crash+restart on the same database) over the real VoteDB code; a ghost list of signed votes decides 'at most one per kind, round, index'.",
          "Trusted: gosym, z3; signatures and RLP of VoteItem idealised (native replay uses the real ones); rounds do not go back across restarts; history length 4/5.",
          "solver-based symbolic execution of go/ssa (bv), bounded history with symbolic arguments"),
+ "C05": ("Real processDoubleSignV5/doPenalize/takePenalty on the real StateDB with an arbitrary well-typed evidence and BLS idealised behind the repo's interfaces with a signing oracle (honest: at most one hash per vote kind per round/index): honest safety, equivocation penalised once within the fraction and credited to the penalty account, takePenalty cap/conservation/non-negativity/consistency with delegations and pending withdrawals.",
+         "Trusted: gosym, z3; BLS idealisation; one validator in the look-back set, two pairs. Two open known findings (duplicate pair, cross-kind).",
+         "solver-based symbolic execution of go/ssa (SMT Int mode) with uninterpreted signing oracle"),
+ "C06": ("End-of-block staking kernels only: rewardsToPool and distributeRewards give the same state under every Go map iteration order (self-composition on a Copy, executor forks over all orders); builder slashing vs importing node's replaySlashing of the written slash data for an arbitrary double-sign evidence.",
+         "Trusted: gosym, z3, StateDB.Copy (C10). NOT covered: whole-block determinism through EVM, RLP, tries, receipts, caches. One open known finding (zero-penalty expulsion not replayed).",
+         "solver-based symbolic execution of go/ssa with map-order permutation and self-composition"),
+ "C07": ("One inductive step per end-of-block value-moving kernel (blockRewards+rewardsToPool, distributeRewards, settleValidatorRewards, processWithdrawQueue) with a ghost sum over balances, reward accounts, role pools, residue, pending withdrawals and the block's fees; penalties are in C05, fee charging in C17.",
+         "Trusted: gosym, z3 (non-linear Int, standalone fallback); online validators hold >= 1 stake unit; staking tx handlers and EVM transfers outside. One open known finding (forced settle loses rewards).",
+         "solver-based symbolic execution of go/ssa (SMT Int mode, non-linear), inductive conservation step"),
  "C08": ("Inductive step on the real StateDB validator/delegation code from an arbitrary consistent two-validator state (symbolic role/status/token, a delegation): statistics = recomputation, index = live set, per-validator sums and delegator links after every mutation and after its revert.",
          "Trusted: gosym, z3; fake Database/Trie behind the repo's own interfaces; PubToAddress/RLP of the delegator list idealised; commit+reload outside.",
          "solver-based symbolic execution of go/ssa (SMT Int mode), inductive invariant step"),
